@@ -14,6 +14,7 @@ func init() { register("C17", checkC17) }
 func checkC17(c *Ctx, r *Report) {
 	r.Explanation = "R2/R1 on the Go skeletons and the trace builders: stack slots are written only in PushStateSym (and ParserInit), which calls TraceShift on the pushed entry first; in the reduce branch TraceReduce(reduceIndex, gotoState, TraceTranslate(lookAhead)) lies between the goto lookup and the push and receives the rule index given to ReduceFunc and the state that is pushed; ReduceTrace case i is built from the visitor's rule i−1 (the same offset as the reduce cases, C01.c) over all rules; TranslateTrace covers every grammar symbol with id → display name; every trace print is guarded by IsTrace and by nothing else. Not decided: the printed text on any input; that the run is a legal run of the automaton (follows from C01)."
 	st := c.GetStaged()
+	stagedErrors(r, "C17", st)
 	for _, sk := range quickSkeletons(st) {
 		name := "skeleton " + sk.V.Name
 		if sk.File == nil || len(sk.TypeErs) > 0 {
